@@ -66,9 +66,13 @@ fn worker(pl: &Plan, t: usize, nthreads: usize, filter: Option<(String, String)>
     let seqs = &pl.seqs;
     // other-operand constructions (one per representation) of every sequence that can occur as `w`
     let need_all = pl.neighbours;
+    let mut in_cross = vec![false; seqs.len()];
+    for &i in &pl.cross {
+        in_cross[i] = true;
+    }
     let mut reps: Vec<Option<Vec<Cons>>> = (0..seqs.len()).map(|_| None).collect();
     for (i, q) in seqs.iter().enumerate() {
-        if need_all || pl.cross.contains(&i) {
+        if need_all || in_cross[i] {
             reps[i] = Some(ctors(q, false));
         }
     }
@@ -167,6 +171,9 @@ fn worker(pl: &Plan, t: usize, nthreads: usize, filter: Option<(String, String)>
                 for c2 in r {
                     binary_ops(&mut st, q, c1, w, c2);
                 }
+            }
+            // raw `[u16]` / `str` operands are cheap: always against every construction of the receiver
+            for c1 in &cs {
                 raw_ops(&mut st, q, c1, w);
             }
         }
@@ -232,13 +239,8 @@ fn replay(arg: &str) -> i32 {
     let op = v["op"].as_str().unwrap_or("").to_string();
     let ctor = v["ctor"].as_str().unwrap_or("").to_string();
     // only the first sequence is the receiver
-    let st = {
-        let mut pl1 = pl;
-        // receiver restriction: thread partition 0 of n handles position 0 only
-        let st = worker(&pl1, 0, n.max(1), Some((op.clone(), ctor.clone())));
-        pl1.seqs.clear();
-        st
-    };
+    // receiver restriction: partition 0 of n handles position 0 only
+    let st = worker(&pl, 0, n.max(1), Some((op.clone(), ctor.clone())));
     let j = st.to_json();
     let buckets = j["buckets"].as_array().unwrap();
     println!("case: op={op} ctor={ctor} u={:x?} w={}", u, v["w"]);
